@@ -882,6 +882,20 @@ func (c *Ctx) App(name string, ret Sort, args ...*Term) *Term {
 
 // ---- printing ----
 
+// sortSuffix makes solver-level names unique per sort (the same harness input
+// name may be used with different widths by different harnesses of one run).
+func sortSuffix(s Sort) string {
+	switch s.K {
+	case SBool:
+		return ":b"
+	case SBV:
+		return fmt.Sprintf(":%d", s.W)
+	case SInt:
+		return ":i"
+	}
+	return ":a"
+}
+
 func smtName(s string) string {
 	return "|" + strings.NewReplacer("|", "_", "\\", "_").Replace(s) + "|"
 }
@@ -904,7 +918,7 @@ func (t *Term) leafString() (string, bool) {
 			return t.iv.String(), true
 		}
 	case OVar:
-		return smtName(t.name), true
+		return smtName(t.name + sortSuffix(t.sort)), true
 	}
 	return "", false
 }
